@@ -718,7 +718,10 @@ CLASSES = [
     ("hash-set-narrow-memory", lambda c, b: b.get("notes", {}).get("hash_set_narrow_memory", False),
      r"invalid (indirect )?(read from|access to) stack R3|invalid access to map value|R3 min value|R3 max value"),
     ("owner-without-value", lambda c, b: b.get("notes", {}).get("owner_without_value", False),
-     r"R\d+ !read_ok|on pointer prohibited|pointer arithmetic|invalid mem access|leaks addr"),
+     # the never-assigned register holds whatever the prologue left there (nothing, the context pointer, a map value pointer):
+     # the verifier's complaint is about reading it or about scalar arithmetic on the stale pointer
+     r"R\d+ !read_ok|on pointer prohibited|pointer arithmetic|invalid mem access|leaks addr|makes \w+ pointer be out of bounds"
+     r"|math between \w+ pointer and|modified ctx ptr|pointer comparison"),
     ("redeclared-globalvar", lambda c, b: c["kind"] == "redecl" and bool({n for n, _ in c["spec"]["base"]} & {n for n, _ in c["spec"]["redecl"]}),
      r"invalid access to map value"),
 ]
